@@ -1,0 +1,170 @@
+//go:build verif
+
+package client
+
+// Contracts for the verification machinery in /verif (build tag "verif").
+//
+// Ghost model of the byte stream behind Decoder.r (ONE reader per decoder, assumed):
+//   SpecStream(i)  the i-th byte of the stream (abstract, uninterpreted)
+//   pos            number of stream bytes consumed so far (ghost variable)
+//   unread         number of successful UnreadByte calls (ghost variable)
+// The bufio / io contracts below are trusted library contracts; they are agnostic to how
+// the underlying reads are fragmented.
+
+func SpecStream(i int) byte { panic("abstract spec function") }
+
+//@ spec SpecStream abstract
+
+// Package-level error values are assigned once by the package initialiser (errors.Errorf never returns nil).
+//@ axiom errs_nonnil: ErrBadRespCRLFEnd != nil && ErrBadRespBytesLen != nil && ErrBadRespArrayLen != nil
+
+//@ func bufio.Reader.ReadByte(self) (c, err)
+//@   trusted library contract over the ghost stream
+//@   modifies pos
+//@   ensures ok: err == nil ==> pos == old(pos) + 1 && c == SpecStream(old(pos))
+//@   ensures fail: err != nil ==> pos == old(pos)
+
+//@ func bufio.Reader.UnreadByte(self) (err)
+//@   trusted library contract over the ghost stream
+//@   modifies pos, unread
+//@   ensures ok: err == nil ==> pos == old(pos) - 1 && unread == old(unread) + 1
+//@   ensures fail: err != nil ==> pos == old(pos) && unread == old(unread)
+
+//@ func bufio.Reader.ReadBytes(self, delim) (line, err)
+//@   trusted library contract over the ghost stream
+//@   modifies pos
+//@   ensures ok: err == nil ==> len(line) >= 1 && pos == old(pos) + len(line) && line[len(line) - 1] == delim && fresh(line)
+//@   ensures bytes: err == nil ==> (forall j int :: 0 <= j && j < len(line) ==> line[j] == SpecStream(old(pos) + j))
+//@   ensures fail: err != nil ==> pos >= old(pos)
+
+//@ func bufio.Reader.Peek(self, n) (b, err)
+//@   trusted library contract over the ghost stream
+//@   ensures ok: err == nil ==> len(b) == n && (forall j int :: 0 <= j && j < len(b) ==> b[j] == SpecStream(pos + j))
+
+//@ func bufio.Reader.Discard(self, n) (discarded, err)
+//@   trusted library contract over the ghost stream
+//@   modifies pos
+//@   ensures adv: pos == old(pos) + discarded && 0 <= discarded && discarded <= n
+//@   ensures ok: err == nil ==> discarded == n
+
+//@ func bufio.Reader.Buffered(self) (n)
+//@   trusted library contract
+//@   ensures nonneg: n >= 0
+
+//@ func io.ReadFull(r, buf) (n, err)
+//@   trusted library contract over the ghost stream (r is the decoder's reader)
+//@   modifies pos, elems(buf)
+//@   ensures ok: err == nil ==> n == len(buf) && pos == old(pos) + len(buf)
+//@   ensures bytes: err == nil ==> (forall j int :: 0 <= j && j < len(buf) ==> buf[j] == SpecStream(old(pos) + j))
+//@   ensures fail: err != nil ==> pos >= old(pos)
+
+//@ func errors.WithStack(err) (r)
+//@   trusted library contract
+//@   ensures nil_iff: (r == nil) <==> (err == nil)
+
+//@ func errors.Errorf(f, args) (r)
+//@   trusted library contract
+//@   ensures nonnil: r != nil
+
+// ---- Decoder: offset advance == stream bytes consumed (+ unread), bulk bytes are the stream bytes ----
+
+//@ func Decoder.decodeType
+//@   arith int
+//@   properties C12
+//@   replay client_Decoder
+//@   ghost var pos mathint
+//@   ghost var unread mathint
+//@   requires nonnil: d != nil && d.r != nil
+//@   modifies d.offset, pos
+//@   ensures offset: result1 == nil ==> d.offset - old(d.offset) == pos - old(pos)
+//@   ensures advanced: result1 == nil ==> pos > old(pos) && mathint(result0) == mathint(SpecStream(pos - 1))
+//@   ensures unread_same: unread == old(unread)
+//@   loop 1:
+//@     invariant sync: d.offset - old(d.offset) == pos - old(pos) && pos >= old(pos) && unread == old(unread)
+
+//@ func Decoder.decodeText
+//@   arith int
+//@   properties C12
+//@   replay client_Decoder
+//@   ghost var pos mathint
+//@   ghost var unread mathint
+//@   requires nonnil: d != nil && d.r != nil
+//@   modifies d.offset, pos
+//@   ensures offset: result1 == nil ==> d.offset - old(d.offset) == pos - old(pos)
+//@   ensures lossless: result1 == nil ==> pos == old(pos) + len(result0) + 2 && (forall j int :: 0 <= j && j < len(result0) ==> result0[j] == SpecStream(old(pos) + j))
+//@   ensures crlf: result1 == nil ==> SpecStream(pos - 2) == '\r' && SpecStream(pos - 1) == '\n'
+//@   ensures unread_same: unread == old(unread)
+
+//@ func Decoder.decodeInt
+//@   arith int
+//@   properties C12
+//@   replay client_Decoder
+//@   ghost var pos mathint
+//@   ghost var unread mathint
+//@   requires nonnil: d != nil && d.r != nil
+//@   modifies d.offset, pos
+//@   ensures offset: result1 == nil ==> d.offset - old(d.offset) == pos - old(pos)
+//@   ensures advanced: result1 == nil ==> pos >= old(pos) + 2
+//@   ensures unread_same: unread == old(unread)
+
+//@ func Decoder.decodeBulkBytes
+//@   arith int
+//@   properties C12
+//@   replay client_Decoder
+//@   ghost var pos mathint
+//@   ghost var unread mathint
+//@   requires nonnil: d != nil && d.r != nil
+//@   modifies d.offset, pos
+//@   ensures offset: result1 == nil ==> d.offset - old(d.offset) == pos - old(pos)
+//@   ensures consumed: result1 == nil && result0 != nil ==> pos >= old(pos) + len(result0) + 2
+//@   ensures lossless: result1 == nil && result0 != nil ==> (forall j int :: 0 <= j && j < len(result0) ==> result0[j] == SpecStream(pos - 2 - len(result0) + j))
+//@   ensures crlf: result1 == nil && result0 != nil ==> SpecStream(pos - 2) == '\r' && SpecStream(pos - 1) == '\n'
+//@   ensures unread_same: unread == old(unread)
+
+//@ func Decoder.decodeArray
+//@   arith int
+//@   properties C12
+//@   replay client_Decoder
+//@   ghost var pos mathint
+//@   ghost var unread mathint
+//@   requires nonnil: d != nil && d.r != nil
+//@   requires depth: depth >= 0
+//@   modifies d.offset, pos
+//@   ensures offset: result1 == nil ==> d.offset - old(d.offset) == pos - old(pos)
+//@   ensures unread_same: unread == old(unread)
+//@   loop 1:
+//@     invariant sync: d.offset - old(d.offset) == pos - old(pos) && unread == old(unread)
+//@     invariant recv: d.r != nil
+
+//@ func Decoder.decodeSingleLineBulkBytesArray
+//@   arith int
+//@   properties C12
+//@   replay client_Decoder
+//@   ghost var pos mathint
+//@   ghost var unread mathint
+//@   requires nonnil: d != nil && d.r != nil
+//@   modifies d.offset, pos
+//@   ensures offset: result1 == nil ==> d.offset - old(d.offset) == pos - old(pos)
+//@   ensures unread_same: unread == old(unread)
+
+//@ func Decoder.decodeResp
+//@   arith int
+//@   properties C12
+//@   replay client_Decoder
+//@   ghost var pos mathint
+//@   ghost var unread mathint
+//@   requires nonnil: d != nil && d.r != nil
+//@   requires depth: depth >= 0
+//@   modifies d.offset, pos, unread
+//@   ensures offset: result1 == nil ==> d.offset - old(d.offset) == (pos - old(pos)) + (unread - old(unread))
+//@   ensures nested_no_unread: depth != 0 ==> unread == old(unread)
+//@   ensures multibulk_no_unread: result1 == nil && unread != old(unread) ==> depth == 0 && unread == old(unread) + 1
+
+//@ func MustDecodeOpt
+//@   arith int
+//@   properties C12
+//@   replay client_Decoder
+//@   ghost var pos mathint
+//@   ghost var unread mathint
+//@   requires nonnil: d != nil && d.r != nil
+//@   ensures end_offset: result2 == nil ==> result1 == d.offset && result1 - old(d.offset) == (pos - old(pos)) + (unread - old(unread))
